@@ -57,9 +57,11 @@ def evaluate(case: Dict[str, Any]) -> Dict[str, Any]:
     A = 0.5 * (A + A.T)
     Aneg = A - 2.0 * np.max(np.linalg.eigvalsh(A)) * np.outer(Q[:, 0], Q[:, 0])
 
+    cur = {"A": A}
+
     def grad(x, kind):
         if kind == "convex":
-            return A @ x
+            return cur["A"] @ x
         if kind == "nonconvex":
             return Aneg @ x + 0.3 * np.sin(3 * x)
         return None
@@ -69,6 +71,7 @@ def evaluate(case: Dict[str, Any]) -> Dict[str, Any]:
     refX, refG = [x.copy()], [G[0].copy()]         # reference model of the memory
     cx, cg, flags = [], [], []
     nacc = nrej = 0
+    any_force = False
     for t in range(ncand):
         kind = r.choices(["convex", "nonconvex", "zero_y", "same_x"], [6, 3, 1, 1])[0]
         xn = X[-1] + rng.standard_normal(n) * 10 ** r.uniform(-3, 0.5)
@@ -78,8 +81,24 @@ def evaluate(case: Dict[str, Any]) -> Dict[str, Any]:
             xn, gn = X[-1].copy(), G[-1] + rng.standard_normal(n)
         else:
             gn = G[-1] + (grad(xn, kind) - grad(X[-1], kind))
+        # a share of the steps mimic what main.py does after update_fun_def rewrote the stored gradients
+        # (objective switched to another convex quadratic): new deque G, matrices rebuilt by force —
+        # also when the candidate pair is rejected
+        force = case.get("force", True) and len(X) > 1 and r.random() < 0.25
+        if force:
+            Q2, _ = np.linalg.qr(rng.standard_normal((n, n)))
+            A2 = (Q2 * np.exp(rng.uniform(0, np.log(10 ** r.uniform(0, 2)), n))) @ Q2.T
+            cur["A"] = 0.5 * (A2 + A2.T)
+            G = deque([cur["A"] @ xx for xx in X])
+            refG = [g_.copy() for g_ in G]
+            gn = (cur["A"] @ xn) if kind == "convex" else (G[-1].copy() if kind in ("zero_y", "same_x") else G[-1] + (grad(xn, kind) - grad(X[-1], kind)))
+            if kind == "same_x":
+                xn = X[-1].copy()
         before = (vshex(list(X)), vshex(list(G)), mats_digest(mats))
-        mats = update_lbfgs_matrices(xn.copy(), gn.copy(), X, G, maxcor, mats, False, eps)
+        mats = update_lbfgs_matrices(xn.copy(), gn.copy(), X, G, maxcor, mats, bool(force), eps)
+        if force:
+            out["tags"].append("forced_rebuild")
+            any_force = True
         cx.append(xn)
         cg.append(gn)
         s, y = xn - refX[-1], gn - refG[-1]
@@ -97,7 +116,9 @@ def evaluate(case: Dict[str, Any]) -> Dict[str, Any]:
             nacc += 1
         else:
             nrej += 1
-            if (vshex(list(X)), vshex(list(G)), mats_digest(mats)) != before:
+            if force:
+                out["tags"].append("forced_rebuild_with_rejected_pair")
+            if not force and (vshex(list(X)), vshex(list(G)), mats_digest(mats)) != before:
                 out["prop"].append({"what": "a rejected pair modified the memory or the matrices", "key": "", "detail": {"step": t}})
                 break
         flags.append(accept_ref)
@@ -150,9 +171,10 @@ def evaluate(case: Dict[str, Any]) -> Dict[str, Any]:
     got = drv.run(lines)
     mem = got[0].split(" ")
     steps, Xm, Gm = mem[1:-2], mem[-2], mem[-1]
-    if [s.split(":")[0] for s in steps] != ["1" if f else "0" for f in flags[:len(steps)]][:len(steps)] and not out["prop"]:
+    # (the bookkeeping replay knows nothing of gradients rewritten from outside: compared on sequences without one)
+    if not any_force and [s.split(":")[0] for s in steps] != ["1" if f else "0" for f in flags[:len(steps)]][:len(steps)] and not out["prop"]:
         out["corr"].append("accept/reject decisions differ between model and reference")
-    if (Xm != vshex(list(X)) or Gm != vshex(list(G))) and not out["prop"]:
+    if not any_force and (Xm != vshex(list(X)) or Gm != vshex(list(G))) and not out["prop"]:
         out["corr"].append("deques after the candidate sequence differ (model vs implementation)")
     if len(got) > 1 and len(X) >= 2:
         _, th, bc, bd = got[1].split(" ")
